@@ -104,7 +104,7 @@ Section InjectProofs.
     split.
     - intros [rc [e' H]].
       assert (Hc : inject_cond e c key values force).
-      { destruct (valid_class e c) eqn:Hv.
+      { unfold inject_cond. destruct (valid_class e c) eqn:Hv.
         2:{ unfold inject in H. rewrite Hv in H. discriminate. }
         destruct (Nat.eqb_spec (length values) (x_mult e c)) as [El|El].
         2:{ unfold inject in H. rewrite Hv in H. cbn [negb] in H.
@@ -148,7 +148,7 @@ Section InjectProofs.
     assert (Hex : exists rc e', inject of_stored e c key values ty force = Ok (rc, Some e')) by (eexists; eexists; exact H).
     apply inject_changes_iff in Hex as [Hc [v Hv]].
     rewrite (inject_accepts _ _ _ _ _ _ Hc), Hv in H. cbv zeta in H. injection H as <- <-.
-    split; [reflexivity|]. exists v. split; [reflexivity|].
+    split; [reflexivity|]. exists v. split; [exact Hv|].
     assert (Hval : x_valid (cleared e key) = x_valid e).
     { unfold cleared. destruct (has_key e key); [destruct (classification e key)|]; reflexivity. }
     assert (Hmul : forall c', x_mult (cleared e key) c' = x_mult e c').
@@ -301,13 +301,13 @@ Section Wrappers.
     intros Hl Hs. subst cmd wrap. cbn [nitool_cmd]. destruct (path_split src) as [dir fn]. cbn [fst snd].
     rewrite Hl, Hs. destruct (split_names_default dir fn parts 0) as [names [E [Hlen Hn]]]. rewrite E.
     exists names. cbn [no_writes no_status]. repeat split; try assumption.
-    apply (NoDup_nth names []). intros i j Hi Hj Hij. rewrite Hlen in Hi, Hj.
+    apply (proj2 (NoDup_nth names ([] : str))). intros i j Hi Hj Hij. rewrite Hlen in Hi, Hj.
     rewrite (Hn i Hi), (Hn j Hj) in Hij. cbn [Nat.add] in Hij. exact (split_default_name_inj _ _ _ _ Hij).
   Qed.
 
   (** merge: the API is called with the loaded images (an empty extension is made where missing), in
       command-line order or sorted by the requested key; its result is written once *)
-  Lemma nitool_merge out srcs dim sort clear ns :
+  Lemma nitool_merge out srcs dim sort (clear : bool) ns :
     load_all nii fs_load has_ext with_empty srcs = Ok ns ->
     forall seq, (match truthy sort with
                  | None => seq = ns
@@ -357,7 +357,8 @@ Section Wrappers.
   Proof.
     intros Hl Hc Hr Ha. subst cmd. cbn [nitool_cmd]. rewrite Hl.
     assert (Hb : has_ext n && negb force && negb confirm = false).
-    { destruct Hc as [-> | [-> | ->]]; [reflexivity | |]; destruct (has_ext n), force, confirm; reflexivity. }
+    { destruct (has_ext n) eqn:E; [|reflexivity]. destruct force; [reflexivity|]. destruct confirm; [reflexivity|].
+      destruct Hc as [Hc | [Hc | Hc]]; congruence. }
     rewrite Hb, Hr, Ha. reflexivity.
   Qed.
 
